@@ -250,6 +250,15 @@ def explore_pair(res, pair, bound, module_code, kind, max_execs, nthreads=2):
         return repr(sorted(results.items()))
     n, outcomes, capped = e4.explore_schedules(mk, watched, bound, e4.purge, check, max_execs=max_execs,
                                                watch_module_code=module_code)
+    for k, cnt in outcomes.items():
+        if k.startswith('<anomaly>'):
+            # the same schedule failed three times inside the scheduler (deadlock: no thread can run): that is an
+            # observable failure of the calls under this interleaving
+            res.viol(ID, 'schedule-deadlock', events[0][0], events[0][1],
+                     {'kind': kind, 'events': [_enc_hist([('call', e)])[0] for e in events], 'schedule': [], 'module_code': module_code},
+                     '%s (%d schedules)' % (k, cnt), 'both calls complete', excinfo='deadlock',
+                     devclass='%s:%s.%s|%s.%s' % (kind, events[0][0], events[0][1], events[1][0], events[1][1]))
+    res['extra']['diverged_prefixes'] = res['extra'].get('diverged_prefixes', 0) + outcomes.get('<diverged>', 0)
     return n, outcomes, capped, stats['touch']
 
 
